@@ -147,6 +147,10 @@ class Translator:
                 if fr <= 0 and fr != 0:
                     raise KernelError("negative float literal")
                 return F(zlit(fr.numerator), zlit(fr.denominator))
+            if isinstance(v, str) and v in self.spec.get("strings", {}):
+                return E(zlit(self.spec["strings"][v]), "Z")      # a message / label the kernel declares a code for
+            if v is None and "none" in self.spec:
+                return E(zlit(self.spec["none"]), "Z")
             raise KernelError(f"literal {v!r}")
         if isinstance(node, ast.Name):
             if node.id in env:
